@@ -1,17 +1,19 @@
 (** C16 — Output bytes are a canonical function of the archive's logical content.
 
-    Proved here: two archive values with the same tiles (every lookup agrees), metadata and settings
-    produce identical [to_writer] results — bytes, stream position and operation log — regardless of
-    the order of their internal maps (the randomly seeded hash maps of the implementation; this also
-    covers "the process that writes them"), of the history that produced them, and of whether tiles
-    are in memory or reader-backed.
-    Full statement also asks: writing an archive that was just read back reproduces the same bytes
-    ([to_writer (from_reader b) = b] for written [b]).  That clause needs the composition theorem of C01
-    and, for the coordinates, uses [C09_coord_roundtrip]; it is decided by the correspondence run
-    (model vs Rust, byte-exact) and the direct oracle (rewrite idempotence, history pairs with detours,
-    separate OS processes), not by a theorem yet. *)
+    Proved here:
+    - [C16_canonical_partial]: two archive values with the same tiles (every lookup agrees), metadata and
+      settings produce identical [to_writer] results — bytes, stream position and operation log — regardless
+      of the order of their internal maps (the randomly seeded hash maps of the implementation; this also
+      covers "the process that writes them"), of the history that produced them, and of whether tiles are in
+      memory or reader-backed;
+    - [C16_rewrite_identical]: writing an archive that was just read back reproduces the same bytes: for a
+      written [b], [to_bytes (from_reader b) = b] — whatever API family wrote it; built on C01's composition
+      theorem and on [stored_quantize] (the coordinates read back re-encode to the same stored integers).
+    Premises: as for C01/C04 ([save_premises]: sizes below the format's limits, hash-collision freedom on the
+    contents present, JSON-object metadata, supported internal compression) and that the first write
+    succeeded.  'Partial' refers to those premises only; every clause of the property has a theorem. *)
 Require Import PM.Base PM.Oracles PM.Directory PM.Stream PM.TileManager PM.TileManagerProofs PM.Archive
-               PM.FinishSpec PM.FinishProofs PM.CanonicalProofs.
+               PM.FinishSpec PM.FinishProofs PM.CanonicalProofs PM.Float PM.Header PM.DirReader PM.History PM.HistoryProofs PM.ReopenProofs.
 Open Scope N_scope.
 
 Theorem C16_canonical_partial : forall cx asy p q st tiles U,
@@ -28,6 +30,19 @@ Theorem C16_logical_determined : forall cx s1 s2 t1 t2, Inv cx s1 -> Inv cx s2 -
   logical s1 = Ok t1 -> logical s2 = Ok t2 -> (forall id, view s1 id = view s2 id) -> t1 = t2.
 Proof. exact logical_determined. Qed.
 
+(** re-writing what was read back *)
+Theorem C16_rewrite_identical : forall cx, codec_inv cx -> forall asy p m b p',
+  Rep cx p m -> save_premises cx asy p m ->
+  to_bytes cx asy p = Ok b -> from_reader cx b full_range = Ok p' -> to_bytes cx asy p' = Ok b.
+Proof. exact rewrite_identical_bytes. Qed.
+
+(** ... in any stream state and by either API family: the reopened archive serialises exactly as the original *)
+Theorem C16_rewrite_same_writer_result : forall cx, codec_inv cx -> forall asy p m b p',
+  Rep cx p m -> save_premises cx asy p m ->
+  to_bytes cx asy p = Ok b -> from_reader cx b full_range = Ok p' ->
+  forall asy2 st, to_writer cx asy2 p' st = to_writer cx asy2 p st.
+Proof. exact rewrite_identical. Qed.
+
 (** non-vacuity: two insertion orders (with a detour) of the same three tiles, evaluated *)
 Example C16_example :
   let a := fold_left (fun s '(i, d) => match add_tile ctx_id s i d with Ok s' => s' | _ => s end) [(5, [1]); (6, [1]); (9, [2;2])] (tm_empty None) in
@@ -35,3 +50,11 @@ Example C16_example :
   let b := snd (remove_tile b0 7) in
   finish ctx_id a = finish ctx_id b /\ tile_by_id a <> tile_by_id b.
 Proof. vm_compute. split; [reflexivity|discriminate]. Qed.
+
+(** non-vacuity of the rewrite clause: written, opened, written again — the same bytes (by evaluation) *)
+Example C16_rewrite_example :
+  let tm3 := fold_left (fun s '(i, d) => match add_tile ctx_id s i d with Ok s' => s' | _ => s end) [(5, [1;2]); (6, [1;2]); (9, [7])] (tm_empty None) in
+  let p := mkPM TPng CNone CGzip 0 3 1 (Float.of_Z 3) (Float.of_Z 0) (Float.of_Z 0) (Float.of_Z 0) (Float.of_Z 0) (Float.of_Z 0) [123; 125] tm3 in
+  (do b <- to_bytes ctx_id false p; do p' <- from_reader ctx_id b full_range; do b' <- to_bytes ctx_id true p'; Ok (N.eqb (nlen b) (nlen b') && forallb (fun '(x, y) => N.eqb x y) (combine b b')))
+  = Ok true.
+Proof. vm_compute. reflexivity. Qed.
